@@ -114,6 +114,11 @@ PrefixPrec == 0                                            \* prefix operators b
 LeftAssoc(op) == TRUE                                      \* every infix operator
 
 (* ------------------------------------------------------------------ literals *)
+(* characters of the upper half of the 'bk' output charset (pseudo-graphics and Cyrillic letters): indices 96..100 stand for the
+   bytes 128, 160, 192, 209, 255; their text is a placeholder {XX} that the harness replaces by the character the charset decodes
+   the byte to (a literal 'c / "cc holds the BYTE of its character, 0..255, never a negative number) *)
+HighCodes == << 128, 160, 192, 209, 255 >>
+HighText  == << "{80}", "{A0}", "{C0}", "{D1}", "{FF}" >>
 HexDigit  == << "0", "1", "2", "3", "4", "5", "6", "7", "8", "9", "a", "b", "c", "d", "e", "f" >>
 HexDigitU == << "0", "1", "2", "3", "4", "5", "6", "7", "8", "9", "A", "B", "C", "D", "E", "F" >>
 (* printable ASCII, code = 31 + index *)
@@ -147,13 +152,15 @@ Horner(ds, i, base, acc) ==                       \* guarded left fold  acc * ba
     ELSE IF acc > (LIM - 1 - ds[i]) \div base THEN Skip
     ELSE Horner(ds, i + 1, base, acc * base + ds[i])
 
+CharCode(i) == IF i <= 95 THEN 31 + i ELSE HighCodes[i - 95]
+CharText(i) == IF i <= 95 THEN Ascii[i] ELSE HighText[i - 95]
 LitValue(l) ==
     CASE l.style \in NumStyles ->
             IF l.style = "bare" /\ \E i \in 1..Len(l.ds) : l.ds[i] >= 8 THEN Err(1)
             ELSE LET m == Horner(l.ds, 1, StatedBase(l.style), 0)
                  IN IF m.st = "ok" THEN Ok(IF l.neg THEN -m.v ELSE m.v) ELSE m
-      [] l.style = "'"  -> Ok(31 + l.ds[1])
-      [] l.style = "\"" -> Ok((31 + l.ds[1]) + 256 * (31 + l.ds[2]))             \* low byte first
+      [] l.style = "'"  -> Ok(CharCode(l.ds[1]))
+      [] l.style = "\"" -> Ok(CharCode(l.ds[1]) + 256 * CharCode(l.ds[2]))           \* low byte first
       [] l.style = "^R" -> LET c(i) == IF i <= Len(l.ds) THEN l.ds[i] - 1 ELSE 0    \* padded with spaces
                            IN Ok((c(1) * 40 + c(2)) * 40 + c(3))
 
@@ -173,8 +180,8 @@ LitText(l) ==
             (IF l.neg THEN <<"-">> ELSE <<>>) \o NumPrefix(l.style, l.upper)
             \o [i \in 1..Len(l.ds) |-> IF l.upper THEN HexDigitU[l.ds[i] + 1] ELSE HexDigit[l.ds[i] + 1]]
             \o (IF l.style = "dot" THEN <<".">> ELSE <<>>)
-      [] l.style = "'"  -> <<"'">> \o [i \in 1..Len(l.ds) |-> Ascii[l.ds[i]]]
-      [] l.style = "\"" -> <<"\"">> \o [i \in 1..Len(l.ds) |-> Ascii[l.ds[i]]]
+      [] l.style = "'"  -> <<"'">> \o [i \in 1..Len(l.ds) |-> CharText(l.ds[i])]
+      [] l.style = "\"" -> <<"\"">> \o [i \in 1..Len(l.ds) |-> CharText(l.ds[i])]
       [] l.style = "^R" -> (IF l.upper THEN <<"^", "R">> ELSE <<"^", "r">>)
                            \o [i \in 1..Len(l.ds) |-> IF l.upper THEN R50[l.ds[i]] ELSE R50L[l.ds[i]]]
 
@@ -314,8 +321,8 @@ ShuntValue == FrameValue(frames[1])
 (* ------------------------------------------------------------------ mode "lit": literals written digit by digit *)
 (* Ascii indices.  ' cannot be the character of a character literal and \ starts an escape (both are
    spelling rules of the language, not arithmetic); " ends a "cc literal early. *)
-AllChars     == (1..95) \ {8, 61}
-FewChars     == {1, 2, 3, 17, 27, 28, 30, 33, 34, 59, 66, 91, 95}      \* space ! " 0 : ; = @ A Z a z ~
+AllChars     == ((1..95) \ {8, 61}) \cup (96..100)
+FewChars     == {1, 2, 3, 17, 27, 28, 30, 33, 34, 59, 66, 91, 95} \cup (96..100)     \* space ! " 0 : ; = @ A Z a z ~ and the five high characters
 SqAlphabet   == AllChars
 DqAlphabet   == (IF DqChars = "all" THEN AllChars ELSE FewChars) \ {3}
 R50Alphabet  == {2, 27, 28, 29, 30, 31, 40}                           \* R50 indices:   A Z $ . % 0 9
